@@ -489,7 +489,7 @@ int main (int argc, char **argv)
   wd_ms = getenv ("H_THR_WATCHDOG_MS") ? atol (getenv ("H_THR_WATCHDOG_MS")) : 10000;
   signal (SIGPIPE, SIG_IGN);
 
-  flags = MHD_USE_INTERNAL_POLLING_THREAD | MHD_USE_ITC | MHD_ALLOW_SUSPEND_RESUME | MHD_USE_ERROR_LOG;
+  flags = MHD_USE_INTERNAL_POLLING_THREAD | MHD_USE_ITC | MHD_ALLOW_SUSPEND_RESUME;   /* no error log: stderr is for the sanitizer */
   if (0 == strcmp (pool, "tpc")) { tpc = 1; flags |= MHD_USE_THREAD_PER_CONNECTION; }
   else npool = atoi (pool);
   if (0 == strcmp (mode, "poll")) flags |= MHD_USE_POLL;
